@@ -320,28 +320,19 @@ def run(ctx, rep):
                   "skip_payload decision table changed: %s" % (shape,))
     else:
         rep.missing("R8.4", sp_)
-    # writer selection in process(): spawn_writer only in the arm (None, None, true, mode != None)
+    # writer selection in process(), decided for each of the 24 combinations of (check, view, filter, output mode): the
+    # writer thread is started exactly when there is no check, no view, a filter and an output destination
     pr = "fastpasta::process"
-    tb = ev.tb(pr)
-    if tb:
-        ok = False
-        for i, n in tb.walk():
-            if n["k"] == "Match":
-                arms = [tb.arms[a] for a in n["arms"]]
-                with_writer = [a for a in arms if any((c.get("fn") or "").endswith("write::lib::spawn_writer") for _, c in tb.calls(a["body"]))]
-                if len(with_writer) == 1:
-                    pat = with_writer[0]["pat"]
-                    summ = _pat_summary(pat)
-                    g = with_writer[0].get("guard")
-                    gtxt = ""
-                    if g is not None:
-                        gtxt = " ".join(str(x.get("vname", "")) + str(x.get("op", "")) + ("Ne" if (x.get("fn") or "").endswith("PartialEq::ne") else "") for _, x in tb.walk(g))
-                    ok = summ[:3] == ["None", "None", "true"] and "Ne" in gtxt and "None" in gtxt
-                    rep.check(ok, "R8.4", "R8.4|writer_selection", "writer thread iff no check, no view, filter enabled, output ≠ None", pr,
-                              "writer arm pattern %s guard [%s]" % (summ, gtxt))
-                    break
-        if not ok and not any(i["key"] == "R8.4|writer_selection" for i in rep.instances):
-            rep.bad("R8.4", "R8.4|writer_selection", "cannot find the unique match arm that spawns the writer", pr)
+    if pr in f.fns:
+        from . import c05
+        table = c05.process_consumers(f, ev)
+        wrong = []
+        for (chk, vw, flt, om), (names, und) in sorted(table.items()):
+            want = (not chk) and (not vw) and flt and om != "None"
+            if und or (("spawn_writer" in names) != want) or names.count("spawn_writer") > 1:
+                wrong.append("check=%s view=%s filter=%s output=%s → %s%s" % (chk, vw, flt, om, names, " (undecided)" if und else ""))
+        rep.check(not wrong and len(table) == 24, "R8.4", "R8.4|writer_selection", "writer thread iff no check, no view, filter enabled, output ≠ None (24 combinations evaluated)", pr,
+                  "process() starts the writer in the wrong option combinations: %s" % wrong[:4])
     else:
         rep.missing("R8.4", pr)
     # filter predicate & matching-edge rules are C03's R3.5 (shared)
